@@ -2,7 +2,7 @@
    implementation was observed to do, compared with the model by vm_compute. *)
 From Coq Require Import String List NArith ZArith Bool.
 From J5V.lib Require Import Outcome Corr Json JsonPrint Base64 Civil Decimal.
-From J5V.model Require Import CodecTypes CodecEnc CodecEncDec CodecDecScalar CodecDec CodecEnvDerive CodecFloatInt.
+From J5V.model Require Import CodecTypes CodecEnc CodecEncDec CodecDecScalar CodecDec CodecEnvDerive CodecFloatInt CodecSharedHolder.
 From J5V.proofs Require Import CodecEncDecProofs CodecEncRep.
 Import ListNotations.
 Local Open Scope N_scope.
@@ -90,6 +90,12 @@ Inductive enc_case :=
          (* rep: the harness's statement that (environment, message) satisfy the preconditions of
             C01_full_statement_decided (env_static_b and rep_root_b); the deciders must agree *)
          (rep : bool)
+         (* hoist: the harness's statement that the environment has the shared-holder oneof shape (the
+            exposed oneof of a flattened object: outside env_static_b) and that the case is inside the
+            preconditions of C01_full_statement_decided for the HOISTED environment
+            (CodecSharedHolder.hoist_env), on which the models then must reproduce the observed document
+            and decoded message *)
+         (hoist : bool)
 (* the reflector's derivation steps: re is the raw environment of a root type (ObjectSchema.Properties
    with flatten marks, proto enum value names), e the client environment the real reflector built
    (ClientProperties, EnumSchema.Options): CodecEnvDerive.derive_schema recomputes every schema of e *)
@@ -194,7 +200,29 @@ Definition enc_check (c : enc_case) : bool :=
       | None => false
       end
   | CFloatOut is32 bits => match fmt_small is32 bits with None => true | Some _ => false end
-  | CRound e static root m floats inner pf pt strict out back xcheck aback rep =>
+  | CRound e static root m floats inner pf pt strict out back xcheck aback rep hoist =>
+      (* the shared-holder oneof shape: the theorem's deciders on the hoisted environment, and the
+         models run on the hoisted environment against the real codec's document and decoded message *)
+      (let e' := hoist_env e in
+       let pre := negb (env_static_ok e) && env_static_ok e' &&
+                  rep_root_b (inner_table inner) print (any_back_table aback) e' (S (pval_depth (VMsg m))) root m in
+       let agree := match encode (float_table floats) (inner_table inner) e' root m with
+                    | Ok b =>
+                        (if strict then bytes_eqb b out
+                         else match strict_parse b, strict_parse out with
+                              | Some x, Some y => jv_eq_perm (S (length out)) x y
+                              | _, _ => false
+                              end) &&
+                        match decode_text (dec_scalar (float_parse_table pf) (table_get pt)) (any_back_table aback) e' root out, back with
+                        | Ok m', Some mb => msg_eqb m' mb
+                        | _, _ => false
+                        end
+                    | _ => false
+                    end in
+       Bool.eqb (pre && agree) hoist &&
+       (* inside the preconditions the models on the hoisted view reproduce the real codec EXACTLY on the
+          messages in which every existing holder has a populated member (holders_have_members_b) *)
+       (negb pre || negb (is_some back) || Bool.eqb agree (holders_have_members_b e root m))) &&
       (* the harness states whether the environment is inside the theorem's static hypotheses
          (it knows one shape that is not); the decider must agree *)
       Bool.eqb (env_static_ok e) static &&
